@@ -2,6 +2,8 @@
 abstract cases (arbitrary integers, huge and invalid numbers, longer histories).
 The monitors are integer formulas evaluated by TLC and do not care how the
 numbers were chosen."""
+import hashlib
+import json
 import random
 
 NONE, INVALID, NOARG, CAP = -1, -2, -3, 1000000000
@@ -531,6 +533,43 @@ def kv_stress(tier):
             out.append({"id": "stress/%s-%d-%d" % (be, dele, i), "backend": be, "keys": [key], "vals": vals,
                         "ops": [{"op": "stress", "k": 0, "n": 3, "p": dele, "cut": 250 if tier == "quick" else 1500}, {"op": "set", "k": 0, "v": 2},
                                 {"op": "get", "k": 0}]})
+    return out
+
+
+def enc_from_rows(rows, tier, seed):
+    """operation sequences of MC_enc on the encrypted file system backend: damage positions, value sizes and the two
+    cache keys are chosen by the seed; the sample keeps every pattern of operation kinds (quick)"""
+    r = random.Random(seed * 160481183 + 53)
+    cap = 4000 if tier == "quick" else 10 ** 9
+    if len(rows) > cap:
+        groups = {}
+        for row in rows:
+            groups.setdefault(tuple((o["op"], o["how"]) for o in row["ops"]), []).append(row)
+        keys = sorted(groups)
+        per = max(1, cap // len(keys))
+        picked = []
+        for k in keys:
+            g = groups[k]
+            r.shuffle(g)
+            picked += g[:per]
+        if len(picked) > cap:
+            picked = r.sample(picked, cap)
+        rows = picked
+    out = []
+    for i, row in enumerate(rows):
+        variant = r.randrange(0, 60)
+        keys = kv_keys(r, variant)[:2]
+        vlen = r.choice([1, 24, 100, 700, 5000])
+        vals = [{"len": vlen, "seed": r.randrange(1, 10 ** 9)}, {"len": vlen + r.choice([0, 16]), "seed": r.randrange(1, 10 ** 9)}]
+        ops = []
+        for o in row["ops"]:
+            o2 = dict(o)
+            if o["op"] in ("tamper", "tamper_all"):
+                o2["pos"] = r.randrange(0, 100000)
+            ops.append(o2)
+        be = "fs" if row["ops"][0]["op"] == "open_enc" else "fsenc"
+        sid = hashlib.sha1(json.dumps(row["ops"], sort_keys=True).encode()).hexdigest()[:12]
+        out.append({"id": "enc/" + sid, "backend": be, "keys": keys, "vals": vals, "ops": ops})
     return out
 
 
